@@ -4,7 +4,7 @@ and record the verdicts in /verif/seeded/RESULTS.json (never run by the register
 import glob, json, os, subprocess, sys, time
 ids = sys.argv[1:]
 res = []
-out = "/verif/seeded/RESULTS.json"
+out = os.environ.get("REGRESS_OUT", "/verif/seeded/RESULTS.json")
 old = json.load(open(out)) if os.path.exists(out) else []
 for d in sorted(glob.glob("/verif/seeded/C*")):
     name = os.path.basename(d)
